@@ -13,21 +13,19 @@ theorem retry_nstart {cfg : Cfg} {s s' : State} {nid t : Nat} {e : Bool} {v : Na
     split at hs <;> simp at hs <;> subst hs <;> retry_close0
 
 set_option maxHeartbeats 4000000 in
-theorem retry_nrun {cfg : Cfg} {s s' : State} {nid : Nat} (h : Retry cfg s) (hs : stepNrun s nid = some s') :
-    Retry cfg s' := by
+theorem retry_nrun {cfg : Cfg} {s s' : State} {nid : Nat} (hg : cfg.std = true) (h : Retry cfg s)
+    (hs : stepNrun cfg s nid = some s') : Retry cfg s' := by
   unfold stepNrun at hs
+  std_norm hg at hs
+  simp only [casStep] at hs
   split at hs
   · simp at hs
   · split at hs
-    · simp at hs; subst hs; retry_close0
-    · split at hs
-      · simp at hs
-      · split at hs <;> simp at hs <;> subst hs <;> retry_close0
-    · split at hs
-      · simp at hs
-      · split at hs <;> simp at hs <;> subst hs <;> retry_close0
-    · simp at hs
-
+    all_goals (try (split at hs))
+    all_goals (try (split at hs))
+    all_goals (try (simp at hs))
+    all_goals (try subst hs)
+    all_goals retry_close0
 set_option maxHeartbeats 4000000 in
 theorem retry_nwrite {cfg : Cfg} {s s' : State} {nid : Nat} {o : Outcome} (h : Retry cfg s)
     (hs : stepNwrite s nid o = some s') : Retry cfg s' := by
@@ -76,7 +74,7 @@ theorem retry_step {cfg : Cfg} {s s' : State} {a : Action} (hg : cfg.std = true)
   · exact retry_dret hg hm h hs
   · exact retry_gpass hg hm h hs
   · exact retry_nstart h hs
-  · exact retry_nrun h hs
+  · exact retry_nrun hg h hs
   · exact retry_nwrite h hs
   · cases hs; exact retry_ack h
   · exact retry_cancel h hs
